@@ -25,6 +25,20 @@ logger = logging.getLogger('pyx12.error_997')
 logger.setLevel(logging.DEBUG)
 
 
+def _echo(val, width=None):
+    """
+    Source data copied into the acknowledgement must not contain the
+    delimiters the acknowledgement is written with (it would add or split
+    elements and segments).  X12 has no escape mechanism, so they are removed.
+    """
+    if val is None:
+        return val
+    out = ''.join([c for c in val if c not in '~*:^\r\n'])
+    if width is not None:
+        out = out.ljust(width)
+    return out
+
+
 class error_997_visitor(error_visitor.error_visitor):
     """
     Visit an error_handler composite.  Generate a 997.
@@ -67,17 +81,17 @@ class error_997_visitor(error_visitor.error_visitor):
         icvn = seg.get_value('ISA12')
         isa_seg = pyx12.segment.Segment('ISA*00*          *00*          ',
                                         self.seg_term, self.ele_term, self.subele_term)
-        isa_seg.append(seg.get_value('ISA07'))
-        isa_seg.append(seg.get_value('ISA08'))
-        isa_seg.append(seg.get_value('ISA05'))
-        isa_seg.append(seg.get_value('ISA06'))
+        isa_seg.append(_echo(seg.get_value('ISA07'), 2))
+        isa_seg.append(_echo(seg.get_value('ISA08'), 15))
+        isa_seg.append(_echo(seg.get_value('ISA05'), 2))
+        isa_seg.append(_echo(seg.get_value('ISA06'), 15))
         isa_seg.append(time.strftime('%y%m%d'))  # Date
         isa_seg.append(time.strftime('%H%M'))  # Time
-        isa_seg.append(seg.get_value('ISA11'))
+        isa_seg.append(seg.get_value('ISA11') if seg.get_value('ISA11') not in ('~', '*', ':', '\r', '\n') else 'U')
         isa_seg.append(icvn)
         isa_seg.append(self.isa_control_num)  # ISA Interchange Control Number
         isa_seg.append('0') # No need for TA1 response to 997
-        isa_seg.append(seg.get_value('ISA15'))
+        isa_seg.append(_echo(seg.get_value('ISA15'), 1))
         isa_seg.append(self.subele_term)
         self._write(isa_seg)
         self.isa_seg = isa_seg
@@ -87,16 +101,16 @@ class error_997_visitor(error_visitor.error_visitor):
         seg = errh.cur_gs_node.seg_data
         gs_seg = pyx12.segment.Segment('GS', '~', '*', ':')
         gs_seg.append('FA')
-        gs_seg.append(seg.get_value('GS03').rstrip())
-        gs_seg.append(seg.get_value('GS02').rstrip())
+        gs_seg.append(_echo(seg.get_value('GS03')).rstrip())
+        gs_seg.append(_echo(seg.get_value('GS02')).rstrip())
         gs_seg.append(time.strftime('%Y%m%d'))
         gs_seg.append(time.strftime('%H%M%S'))
-        gs_seg.append(seg.get_value('GS06'))
-        gs_seg.append(seg.get_value('GS07'))
+        gs_seg.append(_echo(seg.get_value('GS06')))
+        gs_seg.append(_echo(seg.get_value('GS07')))
         gs_seg.append(icvn)
         self._write(gs_seg)
         self.gs_seg = gs_seg
-        self.gs_id = seg.get_value('GS06')
+        self.gs_id = _echo(seg.get_value('GS06'))
         #self.gs_997_count = 0
         self.st_loop_count = 0
         self.gs_loop_count += 1
@@ -159,9 +173,9 @@ class error_997_visitor(error_visitor.error_visitor):
             #seg = ['TA1', err_isa.isa_trn_set_id, err_isa.orig_date, \
             #    err_isa.orig_time]
             ta1_seg = pyx12.segment.Segment('TA1', '~', '*', ':')
-            ta1_seg.append(err_isa.isa_trn_set_id)
-            ta1_seg.append(err_isa.orig_date)
-            ta1_seg.append(err_isa.orig_time)
+            ta1_seg.append(_echo(err_isa.isa_trn_set_id))
+            ta1_seg.append(_echo(err_isa.orig_date))
+            ta1_seg.append(_echo(err_isa.orig_time))
             err_codes = self.__get_isa_errors(err_isa)
             if err_codes:
                 err_cde = err_codes[0]
@@ -206,7 +220,7 @@ class error_997_visitor(error_visitor.error_visitor):
         #seg = ['AK1', err_gs.fic, err_gs.gs_control_num]
         #self._write(seg)
         self._write(pyx12.segment.Segment('AK1*%s*%s' %
-                                          (err_gs.fic, err_gs.gs_control_num), '~', '*', ':'))
+                                          (_echo(err_gs.fic), _echo(err_gs.gs_control_num)), '~', '*', ':'))
 
     def __get_gs_errors(self, err_gs):
         """
@@ -294,8 +308,8 @@ class error_997_visitor(error_visitor.error_visitor):
         @type err_st: L{error_handler.err_st}
         """
         seg_data = pyx12.segment.Segment('AK2', '~', '*', ':')
-        seg_data.append(err_st.trn_set_id)
-        seg_data.append(err_st.trn_set_control_num.strip())
+        seg_data.append(_echo(err_st.trn_set_id))
+        seg_data.append(_echo(err_st.trn_set_control_num).strip())
         self._write(seg_data)
 
     def __get_st_errors(self, err_st):
@@ -348,10 +362,10 @@ class error_997_visitor(error_visitor.error_visitor):
         #seg_base = ['AK3', err_seg.seg_id, '%i' % err_seg.seg_count]
         valid_AK3_codes = ('1', '2', '3', '4', '5', '6', '7', '8')
         seg_base = pyx12.segment.Segment('AK3', '~', '*', ':')
-        seg_base.append(err_seg.seg_id)
+        seg_base.append(_echo(err_seg.seg_id))
         seg_base.append('%i' % err_seg.seg_count)
         if err_seg.ls_id:
-            seg_base.append(err_seg.ls_id)
+            seg_base.append(_echo(err_seg.ls_id))
         else:
             seg_base.append('')
         seg_str = seg_base.format('~', '*', ':')
@@ -390,8 +404,8 @@ class error_997_visitor(error_visitor.error_visitor):
             if err_cde in valid_AK4_codes:
                 seg_data = pyx12.segment.Segment(seg_str, '~', '*', ':')
                 seg_data.set('AK403', err_cde)
-                if bad_value:
-                    seg_data.set('AK404', bad_value)
+                if bad_value and _echo(bad_value):
+                    seg_data.set('AK404', _echo(bad_value))
                 self._write(seg_data)
 
     def _write(self, seg_data):
